@@ -132,11 +132,22 @@ var (
 // "  at: <module>  <line>  (<table>)" / "from: <module>  <line>  (<table>)".
 var frameRe = regexp.MustCompile(`(?m)^([ \t]*(?:at|from):[ \t]+\S.*?)[ \t]+\d+([ \t]+\([^\n]*\))?[ \t]*$`)
 
-// maskPos removes source positions from messages: "line 12", "line 12:7", and the
-// bare line-number column of a call-frame dump.
+// frameNameRe matches the name ego gives a call frame, "<function>:<line>"
+// (bytecode callframe.go: fmt.Sprintf("%s:%d", name, f.Line)), where it shows in a
+// message: directly in front of "(line N)" or after "defer " (the name of a deferred
+// function literal is "defer main:181").
+var (
+	frameNameRe = regexp.MustCompile(`\b([A-Za-z_][\w.$]*):\d+(\(line N)`)
+	deferNameRe = regexp.MustCompile(`\b(defer [A-Za-z_][\w.$]*):\d+\b`)
+)
+
+// maskPos removes source positions from messages: "line 12", "line 12:7", the bare
+// line-number column of a call-frame dump, and the line in a call frame's name.
 func maskPos(s string) string {
 	s = lineRe.ReplaceAllString(s, "line N")
 	s = frameRe.ReplaceAllString(s, "$1 N$2")
+	s = frameNameRe.ReplaceAllString(s, "$1:N$2")
+	s = deferNameRe.ReplaceAllString(s, "$1:N")
 
 	return s
 }
